@@ -219,6 +219,8 @@ class Gen13:
             body += self.stmts(s2, 1, budget - 1, allow_new=False)
         if r.random() < 0.35:
             body = self.inner_loop(s2) + body
+        if r.random() < 0.15:
+            body = body + self.half_return(s2)
         body.append(Node('assign', PV(i), Node('op2', 'add', V(i), lit(1))))
         test = Node('cmp', ['<'], [V(i), lit(k)])
         if r.random() < 0.25:
@@ -271,6 +273,61 @@ class Gen13:
         if tgt not in reals:
             del sc[tgt]                     # a fresh target is not used after the loop
         return pre + [Node('for', PV(tgt), it, body)]
+
+    def half_return(self, sc):
+        """An if/else one arm of which ends in a nested if/else in which exactly one arm returns; the
+        other paths assign a variable that is read after the statement (which definitions reach that read?)."""
+        r = self.r
+        self.features.add('half-return')
+        x = r.choice(self.reals(sc))
+
+        def asg():
+            return Node('assign', PV(x), self.rexpr(sc, 1))
+
+        def ret():
+            return Node('return', self.rexpr(sc, 1))
+        inner_arms = [[ret()], [asg()]]
+        if r.random() < 0.3:
+            inner_arms[1] = [Node('if', self.test1(sc), [asg()], [asg(), asg()])]     # depth 3, no return
+        if r.random() < 0.5:
+            inner_arms.reverse()
+        inner = Node('if', self.test1(sc), inner_arms[0], inner_arms[1])
+        pre = [asg()] if r.random() < 0.4 else []
+        other = [asg()] if r.random() < 0.6 else [Node('pass')]
+        arms = [pre + [inner], other]
+        if r.random() < 0.5:
+            arms.reverse()
+        return [Node('if', self.test1(sc), arms[0], arms[1])]
+
+    def nested_merge(self, sc):
+        """Two lists of lists unified by a conditional expression / a list literal / a store, with a name
+        bound to a row of one side before the unification and a write through a row of the result."""
+        r = self.r
+        self.features.add('nested-merge')
+        ls = [x for x, t in sc.items() if isinstance(t, tuple) and t[0] == 'L' and t[1]]
+        a, b = r.choice(ls), r.choice(ls)
+        aa, bb, row, zz, w = (self.fresh(n) for n in ('aa', 'bb', 'row', 'zz', 'w'))
+        out = [Node('assign', PV(aa), Node('list', [V(a), V(b)])),
+               Node('assign', PV(bb), Node('list', [V(b), V(a)] if r.random() < 0.5 else [V(b)])),
+               Node('assign', PV(row), Node('ref', V(r.choice([aa, bb])), lit(0)))]
+        k = r.random()
+        if k < 0.4:
+            out.append(Node('assign', PV(zz), Node('ife', self.test1(sc), V(aa), V(bb))))
+        elif k < 0.7:
+            cc = self.fresh('cc')
+            out += [Node('assign', PV(cc), Node('list', [V(aa), V(bb)])),
+                    Node('assign', PV(zz), Node('ref', V(cc), lit(r.randrange(2))))]
+        else:
+            cc = self.fresh('cc')
+            out += [Node('assign', PV(cc), Node('list', [V(aa)])),
+                    Node('iassign', cc, [lit(0)], V(bb)),
+                    Node('assign', PV(zz), Node('ref', V(cc), lit(0)))]
+        out += [Node('assign', PV(w), Node('ref', V(zz), lit(0))),
+                Node('iassign', w, [lit(0)], self.rexpr(sc, 1))]
+        n = min(sc[a][1], sc[b][1])
+        sc[row] = ('L', n)
+        sc[w] = ('L', n)
+        return out
 
     def if1(self, sc, budget):
         self.features.add('if1')
@@ -364,8 +421,12 @@ class Gen13:
                 out += self.for_loop(sc, budget)
             elif k < 0.84:
                 out += self.if1(sc, budget)
-            elif k < 0.92 and self.lists and allow_new:
+            elif k < 0.89 and self.lists and allow_new:
                 out += self.list_stmt(sc)
+            elif k < 0.93 and self.lists and allow_new and any(isinstance(t, tuple) and t[1] for t in sc.values()):
+                out += self.nested_merge(sc)
+            elif k < 0.97 and self.reals(sc):
+                out += self.half_return(sc)
             elif allow_new:
                 out += self.const_chain(sc)
             else:
